@@ -363,6 +363,12 @@ def run(rep, br, proofs, rng, tier):
              ("catch-var-in-function-calls",
               'fns := []\nmk := func(i) { try { throw string(i) } catch e { return func() { return e.Message } } }\nfor i := 0; i < 3; i++ { fns = append(fns, mk(i)) }\n' + loop,
               "(ok (a (s x30) (s x31) (s x32)))", None, None)]
+    # destructuring from an array that shares its backing store with a longer one (a slice, an array grown by append):
+    # the missing elements are undefined, the other array keeps its elements
+    FIXED += [("destructure-from-slice", 'arr := [1, 2, 3]\nx, y := arr[:1]\nreturn [x, y, arr]\n', "(ok (a (i 1) (n) (a (i 1) (i 2) (i 3))))", None, None),
+              ("destructure-assign-from-slice", 'arr := [1, 2, 3, 4]\nx := 0\ny := 0\nz := 0\nx, y, z = arr[1:2]\nreturn [x, y, z, arr]\n', "(ok (a (i 2) (n) (n) (a (i 1) (i 2) (i 3) (i 4))))", None, None),
+              ("destructure-from-appended", 'base := [1, 2, 3, 4]\nshort := append(base[:1], 9)\na, b, c := short\nreturn [a, b, c, base, short]\n', "(ok (a (i 1) (i 9) (n) (a (i 1) (i 9) (i 3) (i 4)) (a (i 1) (i 9))))", None, None),
+              ("destructure-in-function", 'f := func(v) { p, q, r := v[:2]; return [p, q, r] }\nw := [5, 6, 7]\nreturn [f(w), w]\n', "(ok (a (a (i 5) (i 6) (n)) (a (i 5) (i 6) (i 7))))", None, None)]
     fcases = [mk_case("k%d.%s" % (i, m), "run02", m, hexs(src)) for i, (_, src, _, _, _) in enumerate(FIXED) for m in ("opt", "noopt")]
     fimpl, _ = vlib.run_impl([c["line"] for c in fcases], timeout=300)
     known = {k["id"] for k in vlib.load_known("C02")}
